@@ -6,8 +6,9 @@ Model of
 Durations are Int nanoseconds (time.Duration = int64). The float64 arithmetic of `Backoff` is
 modelled over ℚ (core `Rat`): the model is the *real-number* reading of the Go expression, with the
 random draw `r ∈ [0,1)` as an explicit argument. The float→int64 conversion at the end is a
-parameter: `satConv` is the property's saturating conversion, `wrapConv` is what the unchanged
-code does on amd64 (CVTTSD2SI: out-of-range → MinInt64).
+parameter; the code (since /repo commit 8a2d107, which repaired finding F1) performs `satConv`:
+`if backoff >= math.MaxInt64 { return math.MaxInt64 }` (the float constant is 2^63), then truncation.
+Before that commit an out-of-range float was converted directly (MinInt64 on amd64).
 -/
 import GrpcModel.Generated.Backoff
 namespace GrpcModel.Backoff
@@ -25,11 +26,9 @@ structure Config where
   maxDelay : Int
 deriving Repr
 
-/-- The property's conversion of a non-negative real to a duration: truncate, saturate at MaxInt64. -/
+/-- Go: `if backoff >= math.MaxInt64 { return math.MaxInt64 }; return time.Duration(backoff)` on a
+    non-negative value — which is also the property's conversion: truncate, saturate at MaxInt64. -/
 def satConv (x : Rat) : Int := if two63 ≤ x then maxInt64 else x.floor
-
-/-- Go `time.Duration(x)` for a non-negative float64 on amd64: truncate; out of range → MinInt64. -/
-def wrapConv (x : Rat) : Int := if two63 ≤ x then minInt64 else x.floor
 
 /-- Go: `for backoff < max && retries > 0 { backoff *= Multiplier; retries-- }`. -/
 def grow (mult max : Rat) : Nat → Rat → Rat
@@ -50,11 +49,8 @@ def backoffWith (conv : Rat → Int) (c : Config) (retries : Int) (r : Rat) : In
   let b := core c retries.toNat * (1 + c.jitter * (r * 2 - 1))
   if b < 0 then 0 else conv b
 
-/-- Backoff with the property's saturating conversion (what the statement asks for, and what the
-    suggested fix "clamp before conversion" computes). -/
+/-- `Exponential.Backoff` as the code computes it (saturating conversion). -/
 def backoffSat := backoffWith satConv
-/-- Backoff as the unchanged code computes it (amd64). -/
-def backoffGo := backoffWith wrapConv
 
 /-- The property's reference value `min(base·mult^n, maxDelay)`. -/
 def target (c : Config) (n : Nat) : Rat := min (c.base * c.mult ^ n) c.maxDelay
@@ -90,8 +86,9 @@ def roundF64 (x : Int) : Int :=
   let r : Int := Int.ofNat (q' * 2 ^ k)
   if x < 0 then -r else r
 
-/-- Could the float value handed to `time.Duration(·)` reach 2^63 for some draw? (Only then can the
-    unchanged code's conversion go out of range.) The loop is evaluated both on the exact delays
+/-- Could the float value handed to `time.Duration(·)` reach 2^63 for some draw? (Only then could a
+    missing saturation — finding F1, repaired by 8a2d107 — make the conversion go out of range; used
+    to word the verdict.) The loop is evaluated both on the exact delays
     and on their float64 roundings (`float64(MaxInt64-1) = 2^63 = float64(MaxInt64)` changes the
     loop's exit), with the float slack on top. -/
 def mayOverflow (c : Config) (n : Nat) : Bool :=
